@@ -69,11 +69,16 @@ def canon_obs(out, res, keep_reason=True):
 
 
 def split_model(line):
-    """'OUT <hex> || RES …' -> (out, res)"""
+    """'OUT <hex> || RES … || SHAPE …' -> (out, res)"""
     if not line.startswith("OUT "):
         return None, line
-    out, _, res = line[4:].partition(" || ")
-    return out, res
+    parts = line[4:].split(" || ")
+    return parts[0], (parts[1] if len(parts) > 1 else "")
+
+
+def model_shape(line):
+    parts = line.split(" || ")
+    return parts[2] if len(parts) > 2 else ""
 
 
 def run_impl(progs, mode, extra=()):
@@ -84,11 +89,13 @@ def run_impl(progs, mode, extra=()):
     return [split_impl(r) for r in res]
 
 
-def run_model(which, trees, hints=False, fuel=FUEL):
+def run_model(which, trees, hints=False, fuel=FUEL, flags=None):
+    """flags: optional per-tree list of extra flag strings such as 'fault=2:runtime_error'"""
     b = bins()
     if b.get(which) is None:
         return [None] * len(trees)
-    rc, res, err = vlib.run_lines(b[which], ["%d %d %s" % (1 if hints else 0, fuel, t) for t in trees], timeout=3000)
+    fl = flags or [""] * len(trees)
+    rc, res, err = vlib.run_lines(b[which], ["%d%s %d %s" % (1 if hints else 0, ("," + x) if x else "", fuel, t) for t, x in zip(trees, fl)], timeout=3000)
     if len(res) != len(trees):
         raise vlib.BuildError("model %s produced %d lines for %d trees: %s" % (which, len(res), len(trees), err[-1000:]))
     return res
